@@ -9,10 +9,13 @@
    light/store/db (as a height-sorted list with Prune), types/light.go (ValidateBasic).
    Transcribed by hand, branch by branch in the order of the source.  No proofs in this file.
 
-   The model is of the REPAIRED code for two defects:
+   The model is of the REPAIRED code for three defects:
      F2  compareNewHeaderWithWitness returns after sending errConflictingHeaders
          ([compare_hash] yields one message; the unfixed code is [compare_hash_unfixed]);
-     F23 backwards compares the header reached by the hash-chain walk with the requested header.
+     F23 backwards compares the header reached by the hash-chain walk with the requested header;
+     F50 findNewPrimary promotes the responding witness only after removeWitnesses succeeded; when
+         no witness would remain, primary and witness list stay as they were (the unfixed loop is
+         [fnp_loop_unfixed]: the respondent became primary and stayed a witness).
 
    Abstractions.
    * Commit verification is C07.Model (verify_commit_light, verify_commit_light_trusting) over an
@@ -30,7 +33,8 @@
      given by [rank] (smaller rank = its messages arrive earlier on the channel); the main loop
      then reads the first cap(errc) messages in that order.  A goroutine contributes the LIST of
      messages it sends.  time.Sleep and context cancellation by the caller are not modelled
-     (providers may answer with a context error). *)
+     (providers may answer with a context error).  Witness slots holding the same provider (only
+   possible in the unrepaired code, F50) have the same rank: their goroutines run in slot order. *)
 From Coq Require Import List ZArith NArith Bool.
 From TM Require Import Generated.Consts C07.Model.
 Import ListNotations.
@@ -256,6 +260,30 @@ Fixpoint fnp_ask (s : st) (ws : list (nat * pid)) (height : Z) : list (nat * pre
     ((i, rep) :: rs, s2)
   end.
 
+(* as in the unrepaired source (F50): the respondent is made primary BEFORE removeWitnesses, which
+   refuses to empty the witness list; the provider is then primary and witness at once.  Used only
+   to exhibit F50 *)
+Fixpoint fnp_loop_unfixed (c : client) (remove : bool) (resp : list (nat * preply)) (to_remove : list nat)
+         (last_err : cerr) : (lblock + cerr) * client :=
+  match resp with
+  | [] =>
+    let c' := match remove_witnesses (cl_witnesses c) to_remove with
+              | Some ws => set_providers c (cl_primary c) ws
+              | None => c
+              end in
+    (inr last_err, c')
+  | (i, P_block b) :: _ =>
+    let ws1 := if remove then cl_witnesses c else cl_witnesses c ++ [cl_primary c] in
+    let prim := nth i ws1 0 in
+    match remove_witnesses ws1 (to_remove ++ [i]) with
+    | None => (inr X_no_witnesses, set_providers c prim ws1)
+    | Some ws2 => (inl b, set_providers c prim ws2)
+    end
+  | (i, P_err e) :: r =>
+    if is_benign e then fnp_loop_unfixed c remove r to_remove (X_provider e)
+    else fnp_loop_unfixed c remove r (to_remove ++ [i]) (X_provider e)
+  end.
+
 Fixpoint fnp_loop (c : client) (remove : bool) (resp : list (nat * preply)) (to_remove : list nat)
          (last_err : cerr) : (lblock + cerr) * client :=
   match resp with
@@ -271,7 +299,7 @@ Fixpoint fnp_loop (c : client) (remove : bool) (resp : list (nat * preply)) (to_
     let prim := nth i ws1 0 in
     let to_remove' := to_remove ++ [i] in
     match remove_witnesses ws1 to_remove' with
-    | None => (inr X_no_witnesses, set_providers c prim ws1)
+    | None => (inr X_no_witnesses, c)          (* REPAIRED (F50): nothing changes *)
     | Some ws2 => (inl b, set_providers c prim ws2)
     end
   | (i, P_err e) :: r =>
